@@ -1640,6 +1640,11 @@ impl StreamingQueueCompressor {
                         sequence,
                         is_sync_token: true,
                     };
+                    #[cfg(ragc_verif)]
+                    ragc_common::verif::emit(
+                        "p_token",
+                        &[("why", 0), ("prio", token_priority as i64), ("seq", sequence as i64)],
+                    );
                     self.queue.push(sync_token, 0)?;
                 }
 
@@ -1719,6 +1724,16 @@ impl StreamingQueueCompressor {
         // Queue is now a priority queue - highest priority processed first
         // eprintln!("[RAGC PUSH] sample={} contig={} priority={} cost={} sequence={}",
         //           &task.sample_name, &task.contig_name, task.sample_priority, task.cost, task.sequence);
+        #[cfg(ragc_verif)]
+        ragc_common::verif::emit_text(
+            "p_contig",
+            &[
+                ("prio", sample_priority as i64),
+                ("cost", cost as i64),
+                ("seq", sequence as i64),
+            ],
+            &[("sample", sample_name.clone()), ("contig", task.contig_name.clone())],
+        );
         self.queue
             .push(task, task_size)
             .context("Failed to push to queue")?;
@@ -1760,6 +1775,8 @@ impl StreamingQueueCompressor {
         if self.config.verbosity > 0 {
             eprintln!("Queue drained - all queued contigs processed");
         }
+        #[cfg(ragc_verif)]
+        ragc_common::verif::emit("p_wait_done", &[("why", 0)]);
 
         Ok(())
     }
@@ -1783,6 +1800,11 @@ impl StreamingQueueCompressor {
                 sequence,
                 is_sync_token: true,
             };
+            #[cfg(ragc_verif)]
+            ragc_common::verif::emit(
+                "p_token",
+                &[("why", 1), ("prio", 1_000_000), ("seq", sequence as i64)],
+            );
             self.queue.push(sync_token, 0)?;
         }
 
@@ -1790,6 +1812,8 @@ impl StreamingQueueCompressor {
         while self.queue.len() > 0 {
             std::thread::sleep(std::time::Duration::from_millis(10));
         }
+        #[cfg(ragc_verif)]
+        ragc_common::verif::emit("p_wait_done", &[("why", 1)]);
 
         Ok(())
     }
@@ -1822,6 +1846,11 @@ impl StreamingQueueCompressor {
                 sequence,
                 is_sync_token: true,
             };
+            #[cfg(ragc_verif)]
+            ragc_common::verif::emit(
+                "p_token",
+                &[("why", 2), ("prio", 1_000_000), ("seq", sequence as i64)],
+            );
             self.queue.push(sync_token, 0)?;
         }
 
@@ -1831,6 +1860,8 @@ impl StreamingQueueCompressor {
 
         // Close queue - no more pushes allowed
         self.queue.close();
+        #[cfg(ragc_verif)]
+        ragc_common::verif::emit("p_close", &[]);
 
         if self.config.verbosity > 0 {
             eprintln!("  Waiting for {} workers to finish...", self.workers.len());
@@ -1844,6 +1875,8 @@ impl StreamingQueueCompressor {
                 .expect("Worker thread panicked")
                 .with_context(|| format!("Worker {} failed", i))?;
         }
+        #[cfg(ragc_verif)]
+        ragc_common::verif::emit("p_joined", &[]);
 
         if self.config.verbosity > 0 {
             eprintln!(
@@ -5077,8 +5110,23 @@ fn worker_thread(
                     worker_id, processed_count
                 );
             }
+            #[cfg(ragc_verif)]
+            ragc_common::verif::emit("w_exit", &[("w", worker_id as i64)]);
             break;
         };
+        #[cfg(ragc_verif)]
+        {
+            ragc_common::verif::emit(
+                "w_pulled",
+                &[
+                    ("w", worker_id as i64),
+                    ("token", task.is_sync_token as i64),
+                    ("seq", task.sequence as i64),
+                    ("prio", task.sample_priority as i64),
+                ],
+            );
+            ragc_common::verif::yield_point("after_pull");
+        }
 
         let queue_wait = queue_start.elapsed();
         total_queue_wait += queue_wait;
@@ -5100,7 +5148,14 @@ fn worker_thread(
 
             // Barrier 1: All workers arrive at sample boundary
             let barrier_start = std::time::Instant::now();
+            #[cfg(ragc_verif)]
+            {
+                ragc_common::verif::yield_point("before_barrier");
+                ragc_common::verif::emit("w_arrive", &[("w", worker_id as i64), ("b", 1)]);
+            }
             barrier.wait();
+            #[cfg(ragc_verif)]
+            ragc_common::verif::emit("w_leave", &[("w", worker_id as i64), ("b", 1)]);
             total_barrier_wait += barrier_start.elapsed();
 
             // Phase 2 (Thread 0 only): Classify raw segments and prepare batch
@@ -5113,6 +5168,24 @@ fn worker_thread(
                 }
 
                 let phase2_start = std::time::Instant::now();
+
+                #[cfg(ragc_verif)]
+                if ragc_common::verif::enabled() {
+                    // batch composition: the distinct (sample, contig) pairs in the raw buffers
+                    let mut names: Vec<String> = Vec::new();
+                    for buf in raw_segment_buffers.iter() {
+                        for seg in buf.lock().unwrap().iter() {
+                            names.push(format!("{}\t{}", seg.sample_name, seg.contig_name));
+                        }
+                    }
+                    names.sort();
+                    names.dedup();
+                    ragc_common::verif::emit_text(
+                        "w_classify",
+                        &[("w", worker_id as i64), ("n", names.len() as i64)],
+                        &[("batch", names.join("\n"))],
+                    );
+                }
 
                 // Step 1: Classify all raw segments (deferred from parallel segment loop)
                 // This eliminates lock contention by doing classification single-threaded
@@ -5163,7 +5236,14 @@ fn worker_thread(
 
             // Barrier 2: All workers see prepared buffers
             let barrier_start = std::time::Instant::now();
+            #[cfg(ragc_verif)]
+            {
+                ragc_common::verif::yield_point("before_barrier");
+                ragc_common::verif::emit("w_arrive", &[("w", worker_id as i64), ("b", 2)]);
+            }
             barrier.wait();
+            #[cfg(ragc_verif)]
+            ragc_common::verif::emit("w_leave", &[("w", worker_id as i64), ("b", 2)]);
             total_barrier_wait += barrier_start.elapsed();
 
             let compress_start = std::time::Instant::now();
@@ -5174,6 +5254,8 @@ fn worker_thread(
                 let Some(idx) = parallel_state.claim_next_idx() else {
                     break;
                 };
+                #[cfg(ragc_verif)]
+                ragc_common::verif::yield_point("claim");
 
                 if let Some((key, mut buffer)) = parallel_state.get_buffer_at(idx) {
                     // Compress this buffer
@@ -5207,7 +5289,14 @@ fn worker_thread(
 
             // Barrier 3: All workers done with compression and buffering
             let barrier_start = std::time::Instant::now();
+            #[cfg(ragc_verif)]
+            {
+                ragc_common::verif::yield_point("before_barrier");
+                ragc_common::verif::emit("w_arrive", &[("w", worker_id as i64), ("b", 3)]);
+            }
             barrier.wait();
+            #[cfg(ragc_verif)]
+            ragc_common::verif::emit("w_leave", &[("w", worker_id as i64), ("b", 3)]);
             total_barrier_wait += barrier_start.elapsed();
 
             if worker_id == 0 && config.verbosity > 0 {
@@ -5281,7 +5370,14 @@ fn worker_thread(
 
             // Barrier 4: All workers ready for next batch (reduced from 2 barriers)
             let barrier_start = std::time::Instant::now();
+            #[cfg(ragc_verif)]
+            {
+                ragc_common::verif::yield_point("before_barrier");
+                ragc_common::verif::emit("w_arrive", &[("w", worker_id as i64), ("b", 4)]);
+            }
             barrier.wait();
+            #[cfg(ragc_verif)]
+            ragc_common::verif::emit("w_leave", &[("w", worker_id as i64), ("b", 4)]);
             total_barrier_wait += barrier_start.elapsed();
 
             // Track total sync token processing time
@@ -5398,10 +5494,17 @@ fn worker_thread(
 
         // ONE lock acquisition for entire contig (reduces contention significantly)
         // Push to this worker's own buffer (NO CONTENTION - each worker has its own buffer)
+        #[cfg(ragc_verif)]
+        ragc_common::verif::yield_point("before_rawbuf");
         raw_segment_buffers[worker_id]
             .lock()
             .unwrap()
             .extend(contig_segments);
+        #[cfg(ragc_verif)]
+        ragc_common::verif::emit(
+            "w_segmented",
+            &[("w", worker_id as i64), ("seq", task.sequence as i64)],
+        );
 
         // End timing for segment processing
         total_segment_processing += segment_start.elapsed();
